@@ -44,9 +44,9 @@ Definition unsafe_boundaries (effs : list eff) : list nat :=
 Definition unclassified (effs : list eff) : list nat :=
   filter (fun k => match classify effs k with None => true | _ => false end) (seq 0 (S (length effs))).
 
-(* the unsafe window recorded as known finding D2: state.increment has happened (or started),
-   insertion_indices.append has not                                                             *)
-Definition in_known_window (a : abs) : bool := dSt a && negb (dAi a).
+(* the unsafe window recorded as known finding D2: state.increment or nested_samples.append has
+   happened (or started), insertion_indices.append has not                                        *)
+Definition in_known_window (a : abs) : bool := (dSt a || dDe a) && negb (dAi a).
 Definition outside_known_window (effs : list eff) : list nat :=
   filter (fun k => match delta effs k with
                    | Some a => negb (balanced a) && negb (in_known_window a)
@@ -77,6 +77,16 @@ Definition final_ok_b (n : nat) (s : state) : bool :=
   && (length (idxs s) =? iter s)%nat                         (* counts agree                      *)
   && sortedb (map key (dead s))
   && zlist_eqb (logLs s) ((- kinf)%Z :: map key (dead s)).
+
+(* ---- a signal inside finalise ------------------------------------------------------------------ *)
+(* finalise interrupted after j of the remaining live points have been recorded (live_points is
+   still set, finalised is still False)                                                            *)
+Definition finalise_prefix (j : nat) (s : state) : state :=
+  mkstate (live s) (dead s ++ firstn j (live s)) (idxs s) (iter s) (logLmin s)
+          (logLs s ++ map key (firstn j (live s))) (nls s ++ countdown (nlive s) j) (nlive s)
+          (evals s) (rej s).
+(* resume: the loop condition is already met and `finalised` is False, so finalise runs again *)
+Definition resume_finalise (j : nat) (s : state) : state := finalise (finalise_prefix j s).
 
 (* ---- the handler: FlowSampler.safe_exit / terminate_run ------------------------------------ *)
 Inductive heff :=
